@@ -27,17 +27,17 @@ func refDeriveKey(disc []byte) []byte {
 	return out
 }
 
-// refTableValid is the documented validity rule for a region table.
+// refTableValid is the validity rule for a region table. A plain region is (first sector, LAST sector),
+// both inclusive - the disc format, the original ps3netsrv (last_addr = end*2048+2047), PS3 Disc Dumper and
+// the table this very server writes into generated PS3 images ({0, volume-1}) all agree on that.
 func refTableValid(regs []refRegion) bool {
 	if len(regs) < 2 || len(regs) > 255 || regs[0].start != 0 {
 		return false
 	}
-	var prevEnd uint32
-	for _, r := range regs {
-		if r.end <= r.start || r.start < prevEnd {
+	for i, r := range regs {
+		if r.end < r.start || (i > 0 && r.start <= regs[i-1].end) {
 			return false
 		}
-		prevEnd = r.end
 	}
 	return true
 }
@@ -60,7 +60,7 @@ func refPlain(n *tnode, regs []refRegion, disc []byte, off, cnt int64) []byte {
 		stored := n.slice(secStart, 2048)
 		enc := false
 		for i := 1; i < len(regs); i++ {
-			if uint32(sec) >= regs[i-1].end && uint32(sec) < regs[i].start {
+			if sec > int64(regs[i-1].end) && sec < int64(regs[i].start) { // strictly between two plain regions
 				enc = true
 			}
 		}
@@ -113,20 +113,23 @@ func genRegions(r *rng, sectors uint32) ([]refRegion, bool) {
 		case 2:
 			return []refRegion{{0, 2}, {5, 7}, {0x7fffffff, 0x80000000}}, true
 		default:
-			return []refRegion{{0, 1}, {0xfffffffe, 0xffffffff}, {0xffffffff, 0xffffffff}}, false // empty last region
+			return []refRegion{{0, 1}, {0xfffffffe, 0xffffffff}, {0xffffffff, 0xffffffff}}, false // last region starts at the previous one's last sector
 		}
 	case 0:
-		return []refRegion{{0, sectors}}, false // a single region: invalid (count < 2)
+		return []refRegion{{0, sectors - 1}}, false // a single region: invalid (count < 2)
 	case 1:
-		return []refRegion{{1, 3}, {5, sectors}}, false // first region not at 0
+		return []refRegion{{1, 3}, {5, sectors - 1}}, false // first region not at 0
 	case 2:
-		return []refRegion{{0, 4}, {3, sectors}}, false // overlapping
+		if r.chance(50) {
+			return []refRegion{{0, 4}, {4, sectors - 1}}, false // second starts AT the last sector of the first
+		}
+		return []refRegion{{0, 4}, {3, sectors - 1}}, false // overlapping
 	case 3:
-		return []refRegion{{0, 4}, {6, 6}}, false // empty region
+		return []refRegion{{0, 4}, {7, 6}}, false // region ending before it starts
 	case 4:
-		return []refRegion{{0, 2}, {2, sectors}}, true // adjacent regions: empty gap
+		return []refRegion{{0, 1}, {2, sectors - 1}}, true // adjacent regions: empty gap
 	case 5:
-		return []refRegion{{0, 1}, {sectors - 1, sectors}}, true // everything but first and last sector encrypted
+		return []refRegion{{0, 0}, {sectors - 1, sectors - 1}}, true // one-sector regions: everything but first and last sector encrypted
 	case 6:
 		return []refRegion{{0, 2}, {5, sectors + 10}}, true // last region beyond the file
 	case 7:
@@ -139,9 +142,9 @@ func genRegions(r *rng, sectors uint32) ([]refRegion, bool) {
 	var regs []refRegion
 	pos := uint32(0)
 	for i := 0; i < k; i++ {
-		ln := uint32(1 + r.intn(4))
+		ln := uint32(r.intn(4)) // last sector = first + 0..3
 		regs = append(regs, refRegion{pos, pos + ln})
-		pos += ln + uint32(r.intn(4))
+		pos += ln + uint32(r.intn(4)) // the next one starts at the same sector (invalid), right after it, or later
 	}
 	return regs, refTableValid(regs)
 }
@@ -219,8 +222,9 @@ func expectReads(reqs []creq, size, mtime int64, openOK bool, view func(off, cnt
 			}
 		case opReadFile:
 			if !openOK {
-				fmt.Fprintf(&sb, "r%d=X:-", i)
-				return sb.String()
+				// nothing is open: the failure code, and the connection goes on
+				fmt.Fprintf(&sb, "r%d=%s ", i, digest(be32(0xffffffff)))
+				continue
 			}
 			d := view(int64(q.b), int64(q.a))
 			fmt.Fprintf(&sb, "r%d=%s ", i, digest(append(be32(uint32(len(d))), d...)))
@@ -273,6 +277,39 @@ func c10Stream(o *out, r *rng, thorough bool) {
 		runWithOracle(o, t, false, reqs, fmt.Sprintf("enc%d", i), func(root string, nodes []tnode) string {
 			return expectReads(reqs, node.size, node.mtime, im.valid, func(off, cnt int64) []byte {
 				return refPlain(&node, im.regs, key, off, cnt)
+			})
+		})
+	}
+	// images at the limit of the server's sector arithmetic (int32 sector numbers): 2^31-1 sectors is the
+	// largest image it can address; anything larger must be refused at open, never decrypted with wrapped
+	// sector numbers (a read beyond 8 TiB used to crash the process)
+	const maxSectors = 1<<31 - 1
+	for i, sz := range []int64{maxSectors * 2048, maxSectors*2048 + 1, maxSectors*2048 + 2048, 9 << 40} {
+		regs := []refRegion{{0, 2}, {10, maxSectors - 2}}
+		n := tnode{path: "/PS3ISO/huge.iso", kind: 'f', size: sz, seed: sparseSeed, mtime: genMtime(r)}
+		n.overlays = []overlay{{0, tableBytes(regs)}}
+		for _, off := range []int64{3 * 2048, 9*2048 + 100, (maxSectors - 1) * 2048, (maxSectors-2)*2048 - 300} {
+			d := make([]byte, 200)
+			for k := range d {
+				d[k] = byte(r.next())
+			}
+			n.overlays = append(n.overlays, overlay{off, d})
+		}
+		key := randKey(r)
+		t := &tree{}
+		t.add(tnode{path: "/", kind: 'd', mtime: genMtime(r)})
+		t.add(tnode{path: "/PS3ISO", kind: 'd', mtime: genMtime(r)})
+		t.add(n)
+		t.add(keyFileNode("/PS3ISO/huge.dkey", key, r, 0))
+		reqs := []creq{{op: opOpenFile, path: n.path},
+			{op: opReadFile, a: 5000, b: 2 * 2048}, {op: opReadFile, a: 3000, b: uint64((maxSectors-3)*2048 - 500)},
+			{op: opReadFile, a: 70000, b: uint64(sz - 4000)}, {op: opReadFile, a: 100, b: 1 << 43}, {op: opReadFile, a: 65536, b: 1<<43 - 2048}}
+		node := n
+		openOK := sz <= maxSectors*2048
+		o.count(fmt.Sprintf("huge-image-open:%v", openOK))
+		runWithOracle(o, t, false, reqs, fmt.Sprintf("hugeenc%d", i), func(root string, nodes []tnode) string {
+			return expectReads(reqs, node.size, node.mtime, openOK, func(off, cnt int64) []byte {
+				return refPlain(&node, regs, key, off, cnt)
 			})
 		})
 	}
